@@ -521,6 +521,14 @@ def plan_C17(ctx):
         if prof == "debug":
             ctx.validate_events(ev, "histories-" + prof)
     ctx.nontrivial.update(("hist", i) for i in range(summary["histories"]))
+    if ctx.deep:
+        # the TLAPS proof of the abstract call protocol (all thread counts, programs, outcome functions); Calls.tla is
+        # checked by TLC to refine it (PROPERTY RefinesProvedProtocol of MC_C17).  A prover that does not answer is
+        # reported, it is not a verdict about the code and does not change the exit status.
+        rc, out = vcheck.run([os.path.join(vcheck.VERIF, "bin", "prove"), "1500"], timeout=1800)
+        last = out.strip().splitlines()[-1] if out.strip() else "no output"
+        log("  TLAPS CallsProof.tla: " + (last if rc == 0 else "NOT RE-CHECKED in this run (%s)" % last))
+        ctx.notes["tlaps_callsproof"] = {"rechecked": rc == 0, "result": last}
     ctx.machine("C04", live=False, profiles=("debug",))
     ctx.records("mix")
     ctx.assumptions.append("instruction-level data races are not enumerated: the atomic step of the Calls model (one whole log line) is justified by apply taking &Value, "
